@@ -221,6 +221,10 @@ fn m1(tagdef: &str, implied: bool, body: &str) -> Vec<String> {
     vec![module("M", tagdef, implied, body)]
 }
 
+fn t_first_value(t: &c07::VT) -> String {
+    t.first_value_text()
+}
+
 impl Prop for C01 {
     type Case = Case;
     fn id(&self) -> &'static str {
@@ -289,7 +293,19 @@ impl Prop for C01 {
         }
         // --- values and DEFAULTs: one representative per (notation, feature, route)
         let mut seen = std::collections::BTreeSet::new();
-        for c in c07::cases(Tier::Quick) {
+        for c in c07::cases(if tier.thorough() { Tier::Thorough } else { Tier::Quick }) {
+            // composite values over type trees: the symbolic level of C07 is blind to the names of the types a value mentions,
+            // so every such value (quick: depth-1 trees completely, depth-2 trees with their first value) is type-checked here
+            if let Some(t) = &c.vt {
+                if c.route != "assign" && c.route != "default" {
+                    continue;
+                }
+                let first_value = c.value == t_first_value(t);
+                if tier.thorough() || t.depth() <= 1 || (first_value && c.route == "assign") {
+                    push(format!("value:tree:{}:{}|{}|{}|{}", c07::value_class(&c), if c.feature.ends_with("inline-types") { "inline" } else { "named" }, c.route, c.prelude.lines().last().unwrap_or(""), c.value), vec![c07::text(&c)], d.clone());
+                }
+                continue;
+            }
             if seen.insert((c.notation.clone(), c.feature.clone(), c.route.clone())) {
                 push(format!("value:{}|{}|{}", c.notation, c.feature, c.route), vec![c07::text(&c)], if c.notation.len() % 3 == 0 { Cfg { no_std: true, ..d.clone() } } else { d.clone() });
             }
